@@ -295,3 +295,23 @@ Theorem C13_rv_no_prologue_epilogue :
       [("// actual code" +++ String.concat Sexp.nl (map RV.display_item items))%string; "cleanup:"%string].
 Proof. reflexivity. Qed.
 Print Assumptions C13_rv_no_prologue_epilogue.
+
+(* ================= x86-64: the SEMANTIC half of the print call (from the simulation development of C06) =================
+   The arithmetic theorems above say the save/restore code is aligned, balanced and mirrored; the two theorems below
+   are about EXECUTION on Sem/X86Sem.v, whose external-call model checks rsp = 0 mod 16 and then destroys every
+   caller-saved register, the flags and the stack below rsp: after the whole print sequence every value of the
+   context is where it was (state relation of the simulation, integers and closures), the output has grown by
+   exactly the printed value, and the stack at and above sp is unchanged - for every context. *)
+From SCC Require Lang.AxSyn Sem.AxSem Proof.X86State Proof.X86SimRel Proof.X86SimPrint.
+Module X86PrintSem.
+Import AxSyn AxSem Backend X86 X86Sem X86State X86SimRel X86SimPrint.
+Theorem C13_x86_print_preserves_context :
+  forall (im : image) (CL : Z -> ident -> list clause -> Prop) (c : ctx) (e : env) (s : xstate) (sp : Z) (nl : bool)
+         (v : ident) (z : Z) (tv : xtemp),
+    rel CL c e s sp -> lookup_int e v = Some z ->
+    variable_temporary x86_backend Snd c (idn v) = Ok tv ->
+    exists s', exec_straight im (x_print nl tv c) s = Some s' /\
+               rel CL c e s' sp /\ out s' = (nl, z) :: out s /\ above_eq s s' sp.
+Proof. exact sim_print. Qed.
+Print Assumptions C13_x86_print_preserves_context.
+End X86PrintSem.
